@@ -351,3 +351,126 @@ def unit_vector(unit):
             imports["t:w/i|echo"] = c["encEcho"]["lower"]
         cases.append({"imports": imports, "exports": {"f": c["enc"]["lift"]}})
     return {"cases": cases}
+
+
+# ------------------------------------------------------------------ async (C08)
+ASYNC_CONFIGS = {
+    # name: (generator options, imports async?, export async?)
+    "both": (["--async", "all"], True, True),
+    "export-only": (["--async", "export:t:w/e#f"], False, True),
+    "import-only": (["--async", "import:t:w/i#f", "--async", "import:t:w/i#echo"], True, False),
+}
+
+
+def async_opts(cfgname, has_res):
+    """the generator options of a configuration for a unit (a function without result has no `echo` to name)"""
+    o = list(ASYNC_CONFIGS[cfgname][0])
+    if cfgname == "import-only" and not has_res:
+        o = o[:2]
+    return o
+
+
+def _fn_params_any(src, module, name):
+    """like _fn_params, for `pub fn` and `pub async fn`"""
+    for kw in ("pub fn", "pub async fn"):
+        try:
+            return _fn_params(src.replace(f"{kw} {name}(", f"pub fn {name}("), module, name)
+        except ToolError:
+            continue
+    raise ToolError(f"cannot find the generated import wrapper `{module}::{name}`")
+
+
+def test_main_async(unit, bindings_src, cfgname, runs):
+    """the test program of one unit under an async configuration.  `runs` = [(case, modes, cancel_at)]: each is one call of
+    the export.  The export's body makes every import call of the unit: it forwards what it received (f), calls f with
+    literals and passes the lifted result to echo, then returns the result literal -- so one task carries the export's lift
+    and lower and the import's lower and lift."""
+    _, imp_async, exp_async = ASYNC_CONFIGS[cfgname]
+    ps, r = unit["ps"], unit["r"]
+    rr = RustRender(unit["defs"])
+    has_res = r["k"] != "none"
+    gtys = [p.split(":", 1)[1].strip() for p in _fn_params_any(bindings_src, "i", "f")]
+    if len(gtys) != len(ps):
+        raise ToolError(f"generated `i::f` has {len(gtys)} parameters, the unit has {len(ps)}")
+    echo_ty = [p.split(":", 1)[1].strip() for p in _fn_params_any(bindings_src, "i", "echo")][0] if has_res else None
+    ptys = [rr.ty(p) for p in ps]
+    rty = rr.ty(r) if has_res else "()"
+    lift = unit["cases"][0]["enc"]["lift"]
+    sig = lift["sig"]
+    aw = ".await" if imp_async else ""
+    out = ["#![allow(unused, non_snake_case, clippy::all)]",
+           "#[allow(warnings)]", "mod bindings { include!(\"w_native.rs\"); }", "use std::cell::Cell;",
+           "thread_local! { static CASE: Cell<usize> = const { Cell::new(0) }; }",
+           "fn cap_s(b: &[u8]) -> String { let mut s = String::with_capacity(b.len() + 13); s.push_str(std::str::from_utf8(b).unwrap()); s }",
+           "fn cap_v<T>(v: Vec<T>) -> Vec<T> { let mut w = Vec::with_capacity(v.len() + 5); w.extend(v); w }",
+           "struct Impl;",
+           "async fn body(" + ", ".join(f"x{i}: {t}" for i, t in enumerate(ptys)) + f") -> {rty} {{",
+           "    // (1) what the export received goes straight back out through the import, where the host compares it with the spec",
+           "    let _r = bindings::t::w::i::f(" + ", ".join(conv_ref(f"&x{i}", g) for i, g in enumerate(gtys)) + f"){aw};",
+           "    drop(_r);",
+           "    // (2) the same call from literals; what is lifted from its result is lowered again through echo",
+           "    match CASE.with(|c| c.get()) {"]
+    for k, c in enumerate(unit["cases"]):
+        out.append(f"        {k} => {{")
+        for i, (p, v) in enumerate(zip(ps, c["args"])):
+            out.append(f"            let a{i}: {ptys[i]} = {rr.val(p, v)};")
+        call = "bindings::t::w::i::f(" + ", ".join(conv_ref(f"&a{i}", g) for i, g in enumerate(gtys)) + f"){aw}"
+        if has_res:
+            out.append(f"            let r: {rty} = {call};")
+            out.append("            bindings::t::w::i::echo(" + conv_ref("&r", echo_ty) + f"){aw};")
+            out.append(f"            {rr.val(r, c['res'])}")
+        else:
+            out.append(f"            {call};")
+        out.append("        }")
+    out += ["        _ => unreachable!(),", "    }", "}",
+            "impl bindings::exports::t::w::e::Guest for Impl {"]
+    params = ", ".join(f"x{i}: {t}" for i, t in enumerate(ptys))
+    fwd = ", ".join(f"x{i}" for i in range(len(ptys)))
+    if exp_async:
+        out.append(f"    async fn f({params})" + (f" -> {rty}" if has_res else "") + f" {{ body({fwd}).await }}")
+    else:
+        out.append(f"    fn f({params})" + (f" -> {rty}" if has_res else "") + f" {{ wit_bindgen::block_on(body({fwd})) }}")
+    out += ["}", "bindings::export!(Impl with_types_in bindings);"]
+    cparams = ", ".join(f"a{i}: {core_rust(t)}" for i, t in enumerate(sig["params"]))
+    args = ", ".join(arg_from_u64(t, f"a[{i}]") for i, t in enumerate(sig["params"]))
+    if exp_async:
+        out.append(f'unsafe extern "C" {{\n    #[link_name = "[async-lift]t:w/e#f"]\n    fn export_f({cparams}) -> i32;\n'
+                   f'    #[link_name = "[callback][async-lift]t:w/e#f"]\n    fn callback_f(a: u32, b: u32, c: u32) -> u32;\n}}')
+    else:
+        cret = (" -> " + core_rust(sig["results"][0])) if sig["results"] else ""
+        out.append(f'unsafe extern "C" {{\n    #[link_name = "t:w/e#f"]\n    fn export_f({cparams}){cret};')
+        if "cabi_post_t:w/e#f" in bindings_src:
+            out.append(f'    #[link_name = "cabi_post_t:w/e#f"]\n    fn post_return_f(a0: {core_rust(sig["results"][0])});')
+        out.append("}")
+    out += ["fn main() {", "    vhost::init();"]
+    for n, (k, modes, cancel) in enumerate(runs):
+        out.append(f"    vhost::select({k}); CASE.with(|c| c.set({k}));")
+        out.append(f'    vhost::begin("task:{n}");')
+        ncalls = (3 if has_res else 2) if imp_async else 0      # the spec counts the async import calls
+        out.append(f'    vhost::ahost::schedule("{modes}", {cancel}, {ncalls}, {"true" if imp_async else "false"}, {"true" if exp_async else "false"});')
+        if exp_async:
+            out.append(f'    vhost::ahost::run_export("f", |a| unsafe {{ export_f({args}) }} as u32, |x, y, z| unsafe {{ callback_f(x, y, z) }});')
+        else:
+            out.append("    {")
+            out.append('        let a = vhost::export_args("f");')
+            if sig["results"]:
+                out.append(f"        let ret = unsafe {{ export_f({args}) }};")
+                out.append(f'        vhost::export_result("f", {ret_to_u64(sig["results"][0], "ret")});')
+                if "cabi_post_t:w/e#f" in bindings_src:
+                    out.append("        unsafe { post_return_f(ret) };")
+            else:
+                out.append(f"        unsafe {{ export_f({args}) }};")
+                out.append('        vhost::export_result("f", 0);')
+            out.append("        vhost::host(|| drop(a));")
+            out.append('        vhost::ahost::sync_export_done();')
+            out.append("    }")
+        out.append(f'    vhost::end("task:{n}");')
+    out += ["    vhost::finish();", "}"]
+    return "\n".join(out) + "\n"
+
+
+def unit_vector_async(unit):
+    v = unit_vector(unit)
+    for c, case in zip(unit["cases"], v["cases"]):
+        case["taskReturn"] = c["encEcho"]["lower"] if unit["r"]["k"] != "none" else None
+    return v
